@@ -489,7 +489,7 @@ def run_lifecycle(rep: C.Report, wd: str, tier: str, seed: int) -> None:
         edges = em_res.json_cases("EDGE")
         if len(edges) + 1 < em_res.generated - 5 or not edges:
             raise C.MachineryError(f"emitted {len(edges)} edges for {em_res.generated} generated states")
-        walks = (150 if tier == "quick" else 1500) if mc == 1 else (50 if tier == "quick" else 300)
+        walks = (1500 if tier == "quick" else 20000) if mc == 1 else (500 if tier == "quick" else 6000)
         replay_graph(rep, role, edges, seed + j, walks=walks, walk_len=40)
     rep.rule = ("one case per transition (source state, call with arguments, outcome) of the Session.tla state graph, emitted by TLC and executed on a real session "
                 "object; distinct by (role, source state, call label); plus seeded random walks through the same graph")
